@@ -205,7 +205,9 @@ def hist_parse(x0, style):
     from cdd.shared.docstring_parsers import parse_docstring
 
     x = ":param a: " + _S((x0,))
-    y = (":param b: number of things. Defaults to 5", "Args:\n  b: whether to. Defaults to True", "Parameters\n----------\nb : int\n    desc\n")[style]
+    y = (":param b: number of things. Defaults to 5", "Args:\n  b: whether to. Defaults to True", "Parameters\n----------\nb : int\n    desc\n",
+         "Head.\n\nArgs:\n  b (int): the b\n\n  Usage:\n    f(1)\n\nReturns:\n  int:\n   res\n\nTrailing prose.\n",
+         "Head.\n\nParameters\n----------\nb : int\n    the b\n\nReturns\n-------\nint\n    res\n\nTrailing prose.\n")[style]
 
     def run(s):
         try:
@@ -222,6 +224,6 @@ def hist_parse(x0, style):
     return ""
 
 
-ob("C10", "hist.parse_docstring", {"x0": CP, "style": R(0, 2)}, T=300,
+ob("C10", "hist.parse_docstring", {"x0": CP, "style": R(0, 4)}, T=400,
    funcs=["cdd.shared.docstring_parsers.parse_docstring"],
-   bound="ReST docstring with ANY code point as description, then one of three concrete docstrings (ReST/Google/NumPy): result of the second is the same before/after/again")(hist_parse)
+   bound="ReST docstring with ANY code point as description, then one of five concrete docstrings (ReST/Google/NumPy; two with a nested Usage block / trailing prose after the sections): result of the second is the same before/after/again")(hist_parse)
